@@ -425,7 +425,7 @@ def prop_proxy(ch, ctx):
         else:
             ctx.check((b['T'], b['P'], b['phases']) == (before['T'], before['P'], before['phases']),
                       f'{site}|{region}|TP-phase-shared', 'flow proxy follows T/P/phase of its partner')
-    if multi:
+    if multi and ch.bool('read_substreams'):
         # the flows of a multi-phase proxy are also observable through its phase sub-streams
         for q in p.phases:
             sub = ctx.call(site + '.substream', p.__getitem__, q, region=region)
@@ -775,7 +775,12 @@ def prop_pickle_stream(ch, ctx):
               f'construct.stream|{region}|state-mismatch', 'constructed stream does not show its arguments')
     if nonzero_rows(s0['rows']):
         ctx.nontriv(['pstream', skey(spec), ideal, cf_mode, sorted(cfs), price == 0])
-    o = ctx.call('pickle.stream', rt, s, region=region)
+    registry = type(s).registry.data
+    known_ids = set(registry)
+    try:
+        o = ctx.call('pickle.stream', rt, s, region=region)
+    finally:
+        for k in [k for k in registry if k not in known_ids]: del registry[k]   # harness hygiene (see pickle_stream_id)
     o0 = snap(o)
     # a MultiStream holding one phase may come back as the Stream the library itself normalises it to
     ctx.check((o0['cls'] == s0['cls'] or (kind3 == 'M1' and o0['cls'] == 'Stream')) and o0['phases'] == s0['phases'],
@@ -802,7 +807,24 @@ def prop_pickle_stream(ch, ctx):
                   f'constructor was given {cfs} but the stream has {s.characterization_factors}')
     ctx.check(o.characterization_factors == s.characterization_factors, f'pickle.stream|{region}|cf-mismatch',
               f'{o.characterization_factors} vs {s.characterization_factors}')
+
+
+def prop_pickle_stream_id(ch, ctx):
+    """The ID is observable state, too: an unregistered stream (ID=None) must come back unregistered."""
+    rt = roundtrip(ch)
+    kind3 = ch.choice('kind', ['S', 'M'])
+    pkg = ch.choice('pkg', ['D', 'E', 'F'])
+    spec = draw_stream(ch, 's', kind3, pkg)
+    s = build(spec)
+    region = f'kind={kind3}'
+    ctx.cell('p:stream-id:' + kind3)
+    registry = type(s).registry.data
+    before = dict(registry)
+    ctx.nontriv(['pstream-id', skey(spec)])
+    o = ctx.call('pickle.stream', rt, s, region=region)
+    ctx.check(snap(o) == snap(s), f'pickle.stream|{region}|state-mismatch', 'unpickled stream differs')
     ctx.check(o.ID == s.ID, f'pickle.stream|{region}|id-mismatch', f'ID {o.ID!r} vs {s.ID!r}')
+    ctx.check(dict(registry) == before, f'pickle.stream|{region}|registry-changed', 'unpickling an unregistered stream changed the stream registry')
 
 
 # -- reactions ----------------------------------------------------------------
@@ -1050,6 +1072,7 @@ PROPS = {
     'substream': (prop_substream, 1500, 20000),
     'links': (prop_links, 1200, 12000),
     'pickle_stream': (prop_pickle_stream, 1500, 12000),
+    'pickle_stream_id': (prop_pickle_stream_id, 150, 1500),
     'pickle_reaction': (prop_pickle_reaction, 1000, 10000),
     'pickle_chemical': (prop_pickle_chemical, 800, 8000),
     'pickle_thermo': (prop_pickle_thermo, 600, 5000),
